@@ -143,7 +143,7 @@ drain_listener(int k) { /* accept and close what the task connected, so the queu
 
 /* ---- case description ---- */
 #define TIMEOUT_MS 3600000ull
-enum { H_FIRE = 1, H_CONN, H_BURST, H_SRVCLOSE, H_DATA, H_CLOSE, H_HALF, H_SRVDATA };
+enum { H_FIRE = 1, H_CONN, H_BURST, H_SRVCLOSE, H_DATA, H_CLOSE, H_HALF, H_SRVDATA, H_PANSWER };
 typedef struct hstep_s { uint8_t op; uint8_t k; } hstep_t;
 #define MAXH 16
 enum { M_ACCEPT = 0, M_CONNECT, M_CONNECT_EX, M_NOTIFY, M_CONNRECV, M_N };
@@ -173,6 +173,7 @@ static int ncb, n_timeout_cb, fires_armed, fires_total;
 /* accept */
 #define MAXCLI 16
 static int cli[MAXCLI], ncli, n_accepted;
+static int p_answered;	/* this case let the silent listener answer: its queue is filled again afterwards */
 /* connect */
 static int conn_fd = -1, conn_cb_error, fired_before_cb;
 /* connect_ex */
@@ -195,7 +196,7 @@ cfail(const char *clause, const char *fmt, ...) {
 static void
 case_desc(char *b, size_t n) {
 	int i; size_t o;
-	static const char *opn[] = { "?", "fire", "conn", "burst", "srvclose", "data", "close", "halfclose", "srvdata" };
+	static const char *opn[] = { "?", "fire", "conn", "burst", "srvclose", "data", "close", "halfclose", "srvdata", "silent-address-answers" };
 	o = (size_t)snprintf(b, n, "%s tmo=%d policy=%d%s", mode_name[C.mode], C.timeout, C.policy, C.evfl ? " dispatch" : "");
 	if (M_CONNECT == C.mode) o += (size_t)snprintf(b + o, n - o, " addr=%c nosettle=%d", kind_ch[C.kind], C.nosettle);
 	if (M_CONNECT_EX == C.mode) {
@@ -406,6 +407,14 @@ apply(const hstep_t *s) {
 		}
 		drain_listener(K_U);
 		break;
+	case H_PANSWER: /* the address that never answered starts to: its listener gets room, the retransmitted SYN (about a
+			 * second later) completes the connection that has been in progress all the time */
+		if (M_CONNECT != C.mode || K_P != C.kind || conn_fd < 0) break;
+		drain_listener(K_P);
+		pfd.fd = conn_fd; pfd.events = POLLOUT;
+		if (1 != poll(&pfd, 1, 8000)) { vh_fail("harness", "the pending connection did not complete after the listener got room"); case_failed = 1; }
+		p_answered = 1;
+		break;
 	case H_SRVDATA: /* the server side accepts the connection (once) and sends k bytes */
 		if (-1 == srv_fd) srv_fd = accept4(lsn[K_U], NULL, NULL, SOCK_NONBLOCK);
 		if (srv_fd >= 0) {
@@ -544,7 +553,10 @@ run_case(void) {
 			cfail("timeout-count", "timer expired %d time(s) while armed, ETIMEDOUT reported %d time(s)", fires_armed, n_timeout_cb);
 		break;
 	case M_CONNECT:
-		if (K_P == C.kind) {
+		if (K_P == C.kind && p_answered) {	/* the connection was completed by the environment, before or after the timeout */
+			if (1 != ncb) cfail((ncb > 1) ? "reported-twice" : "result-not-reported", "%d callbacks for one connect task (timeout elapsed first: %d, then the connection completed)", ncb, fires_armed);
+			else if (conn_cb_error != ((fired_before_cb > 0) ? ETIMEDOUT : 0)) cfail("wrong-error", "reported %d", conn_cb_error);
+		} else if (K_P == C.kind) {
 			if (0 == fires_armed && 0 != ncb) cfail("spurious-callback", "callback (error %d) although the connection is still in progress and no timeout elapsed", conn_cb_error);
 			if (fires_armed > 0 && 1 != ncb) cfail("timeout-count", "the timeout elapsed, %d callbacks", ncb);
 			if (fires_armed > 0 && 1 == ncb && ETIMEDOUT != conn_cb_error) cfail("wrong-error", "timeout reported as %d", conn_cb_error);
@@ -594,6 +606,17 @@ run_case(void) {
 	if (sk[0] >= 0) __real_close(sk[0]);
 	if (sk[1] >= 0) __real_close(sk[1]);
 	drain_listener(K_U);
+	if (p_answered) {	/* make P silent again: a fresh established connection that nobody accepts fills its queue */
+		struct pollfd fp;
+		drain_listener(K_P);
+		__real_close(filler);
+		harness_connect = 1;
+		filler = socket(AF_INET, SOCK_STREAM | SOCK_NONBLOCK, 0);
+		connect(filler, (struct sockaddr *)&addr_of[K_P], sizeof(struct sockaddr_in));
+		harness_connect = 0;
+		fp.fd = filler; fp.events = POLLOUT; poll(&fp, 1, 10000);
+		p_answered = 0;
+	}
 	if (ncb > 0 && !case_failed) vh_nontrivial();
 	vh_outcome(&ncb, sizeof(ncb)); vh_outcome(&natt, sizeof(natt)); vh_outcome(&n_accepted, sizeof(n_accepted)); vh_outcome(&final_error, sizeof(final_error));
 }
@@ -670,6 +693,19 @@ main(int argc, char **argv) {
 	for (C.kind = 0; C.kind < 3; C.kind ++) for (C.timeout = 0; C.timeout < 2; C.timeout ++) for (C.nosettle = 0; C.nosettle < 2; C.nosettle ++) {
 		if (K_P == C.kind && !p_available) continue;
 		C.nh = 0; gen_hist(con_ops, con_ks, 2, 0, 4);
+	}
+	if (p_available) {	/* the silent address starts answering: before any timeout, after it, and with a further expiry behind */
+		static const uint8_t pa[3][3] = { { H_PANSWER, 0, 0 }, { H_FIRE, H_PANSWER, 0 }, { H_FIRE, H_PANSWER, H_FIRE } };
+		static const int pan[3] = { 1, 2, 3 };
+		int q, j;
+		C.kind = K_P; C.nosettle = 0;
+		for (C.timeout = 0; C.timeout < 2; C.timeout ++) for (q = 0; q < 3; q ++) {
+			if (!C.timeout && q > 0) continue;
+			C.nh = pan[q];
+			for (j = 0; j < pan[q]; j ++) { C.h[j].op = pa[q][j]; C.h[j].k = 0; }
+			emit();
+		}
+		C.nh = 0;
 	}
 	C.nosettle = 0; C.kind = 0;
 	C.mode = M_NOTIFY;
